@@ -201,6 +201,23 @@ def _block_args(rng, region, allow_single=True):
     else:
         kwargs["spacing"] = (float((n - s) / rng.uniform(0.4, 9)), float((e - w) / rng.uniform(0.4, 9)))
         kwargs["adjust"] = str(rng.choice(["spacing", "region"]))
+    # the same values in other accepted spellings: list / ndarray / numpy scalars / Python ints
+    spell = int(rng.integers(0, 6))
+    if "shape" in kwargs:
+        kwargs["shape"] = [kwargs["shape"], list(kwargs["shape"]), np.array(kwargs["shape"]), tuple(np.int64(v) for v in kwargs["shape"]),
+                           kwargs["shape"], np.array(kwargs["shape"], dtype="int32")][spell]
+    elif isinstance(kwargs["spacing"], tuple):
+        kwargs["spacing"] = [kwargs["spacing"], list(kwargs["spacing"]), np.array(kwargs["spacing"]), tuple(np.float64(v) for v in kwargs["spacing"]),
+                             kwargs["spacing"], kwargs["spacing"]][spell]
+    else:
+        if spell == 1 and min(e - w, n - s) > 4:  # a whole-number spacing given as a Python int / numpy integer
+            kwargs["spacing"] = int(max(1, min(e - w, n - s) // 3))
+        elif spell == 2 and min(e - w, n - s) > 4:
+            kwargs["spacing"] = np.int64(max(1, min(e - w, n - s) // 3))
+        elif spell == 3:
+            kwargs["spacing"] = np.float64(kwargs["spacing"])
+        elif spell == 4:
+            kwargs["spacing"] = np.array(kwargs["spacing"])
     return kwargs
 
 
